@@ -375,6 +375,11 @@ class Peer:
     def handle_connection(self, connection: 'Incoming') -> Iterator[bool] | None:
         log.debug(lazymsg('peer.fsm.state state={s}', s=self.fsm.name()), self.id())
 
+        # stop() was called (shutdown, removal, tcp.attempts exhausted): this peer is going away, a
+        # connection handed to it would be served by a main loop which belongs to the old session
+        if not self._restart and self._teardown is not None:
+            return connection.notification(6, 3, b'could not accept the connection, the peer is being removed')
+
         # if the other side fails, we go back to idle
         if self.fsm == FSM.ESTABLISHED:
             log.debug(
